@@ -315,6 +315,7 @@ def rewrite_for_loops(lines, counts):
 
 
 _RETAIN = re.compile(r'^(\s*)(.+)\.retain\(\|(\w+)\| \{$')
+_RETAIN1 = re.compile(r'^(\s*)(.+)\.retain\(\|(\w+)\| ([^{}]+)\);$')
 
 
 def rewrite_retain(lines, counts):
@@ -335,6 +336,26 @@ def rewrite_retain(lines, counts):
     while i < n:
         txt, no = lines[i]
         mo = _RETAIN.match(txt)
+        m1 = _RETAIN1.match(txt) if not mo else None
+        if m1 and not txt.lstrip().startswith('//'):
+            # the closure is one expression on the same line: `X.retain(|s| EXPR);`
+            ind, coll, var, expr = m1.group(1), m1.group(2).strip(), m1.group(3), m1.group(4).strip()
+            counts.bump('T24_retain_loop')
+            out.append(('%slet mut retain_i: usize = 0;' % ind, no))
+            out.append(('%swhile retain_i < %s.len()' % (ind, coll), no))
+            out.append((ind + '{', no))
+            out.append(('%s    let retain_keep = {' % ind, no))
+            out.append(('%s        let %s = &%s[retain_i];' % (ind, var, coll), no))
+            out.append(('%s        %s' % (ind, expr), no))
+            out.append(('%s    };' % ind, no))
+            out.append(('%s    if retain_keep {' % ind, no))
+            out.append(('%s        retain_i += 1;' % ind, no))
+            out.append(('%s    } else {' % ind, no))
+            out.append(('%s        %s.remove(retain_i);' % (ind, coll), no))
+            out.append(('%s    }' % ind, no))
+            out.append((ind + '}', no))
+            i += 1
+            continue
         if not mo or txt.lstrip().startswith('//'):
             out.append((txt, no))
             i += 1
